@@ -70,6 +70,11 @@ class Object3d:
             data = np.atleast_2d(data)
             if data.shape[-1] != self.dim:
                 raise DimensionError(self, data)
+            if np.issubdtype(data.dtype, np.floating) and data.dtype.itemsize < 8:
+                # Compute with 64-bit floats, as the conversion and
+                # multiplication routines do, so that results do not
+                # depend on the precision the data were stored with
+                data = data.astype(np.float64)
             self._data = data
         self.__finalize__(data)
 
